@@ -4,6 +4,8 @@ all open bids; cancelling refunds exactly what was escrowed, accepting pays the 
 amount and removes the bid; registrations and purchases leave no residue.
 -/
 import Canine.Proofs.Rns
+import Canine.Proofs.QueryStorage
+import Canine.Query.Rns
 import Canine.Generated.KeyFacts
 namespace Canine.Rns
 open Bank
@@ -309,5 +311,17 @@ def C09_expectedKeys : List (String × String) := [
   ("x/rns/types/keys.go:KeyPrefix", "caccc65e7667915d")]
 
 theorem C09_store_keys_as_modelled : Generated.keyFns_rns = C09_expectedKeys := by decide
+
+/-- **The open bids as clients read them** (`AllBids` through `query.Paginate`): whatever the page
+size, following `NextKey` returns every open bid exactly once — the records whose prices the
+module account holds (`EscrowInv.escrow`). -/
+theorem C09_allBids_lists_every_open_bid (s : State) (limit fuel : Nat)
+    (hraw : (s.bids.map (fun kv => Query.rawKey kv.1)).Nodup) (hf : s.bids.length + 1 ≤ fuel) :
+    ∃ l, Canine.Query.walk (Query.bidEntries s) limit false fuel none [] = some l ∧ l.Perm (s.bids.map (·.2)) :=
+  Canine.Query.walk_entries_perm s.bids Query.rawKey limit fuel hraw hf
+
+/-- the `Bid` query reads the record the handlers maintain -/
+theorem C09_bid_query_reads_the_store (s : State) (index : String) :
+    Query.run s (.bid index) = (match AMap.get s.bids index with | some b => .bid b | none => .err) := rfl
 
 end Canine.Rns
